@@ -79,10 +79,11 @@ theorem nfLookup_agrees (customs : List NumFmt) (nfs : List (Nat × Text))
 
 /-! ## one xf -/
 
-/-- the record `make_style` uses as `def_cell_format` says nothing (no `apply*` flag, no alignment / protection) -/
+/-- the record `make_style` uses as `def_cell_format` carries no `apply*` flag (its alignment / protection child is
+    not looked at any more) -/
 def Neutral (d : XfR) : Prop :=
   d.applyNumFmt = none ∧ d.applyFont = none ∧ d.applyFill = none ∧ d.applyBorder = none ∧ d.applyAlignment = none ∧
-  d.applyProtection = none ∧ d.alignment = none ∧ d.protection = none
+  d.applyProtection = none
 
 /-- ids inside their tables where the component is applied; an applied number-format id is defined in `<numFmts>`
     or is one of the built-in ids (the library's table, regenerated from the source) -/
@@ -120,7 +121,7 @@ theorem resolve_agrees (cf : Tok → Tok) (t : StyleTables) (nfs : List (Nat × 
     (ht : TablesAgree cf t nfs fontNs fillNs borderNs) (d x : XfR) (xn : Node) (hd : Neutral d) (hx : XfAgrees x xn)
     (hr : xfInRange nfs fontNs.length fillNs.length borderNs.length xn = true) :
     ∃ s, resolveXf t d x = some s ∧ styleFacts s = xfFacts cf (xfV nfs fontNs fillNs borderNs xn) := by
-  obtain ⟨d1, d2, d3, d4, d5, d6, d7, d8⟩ := hd
+  obtain ⟨d1, d2, d3, d4, d5, d6⟩ := hd
   simp only [xfInRange, Bool.and_eq_true] at hr
   obtain ⟨⟨⟨r1, r2⟩, r3⟩, r4⟩ := hr
   rw [← hx.fontId] at r1; rw [← hx.fillId] at r2; rw [← hx.borderId] at r3; rw [← hx.numFmtId] at r4
@@ -128,9 +129,8 @@ theorem resolve_agrees (cf : Tok → Tok) (t : StyleTables) (nfs : List (Nat × 
   obtain ⟨fi, hfi, hfiv⟩ := pick_agrees t.fills fillNs fillFacts _ ht.fills x.applyFill _ hx.aFill x.fillId r2
   obtain ⟨bo, hbo, hbov⟩ := pick_agrees t.borders borderNs borderFacts _ ht.borders x.applyBorder _ hx.aBorder x.borderId r3
   have fl : ∀ o : Option Bool, flagOf none o = o := fun o => by cases o <;> rfl
-  have ol : ∀ {α : Type} (o : Option α), orOf o none = o := fun o => by cases o <;> rfl
   unfold resolveXf
-  simp only [d1, d2, d3, d4, d5, d6, d7, d8, fl, ol, hfo, hfi, hbo]
+  simp only [d1, d2, d3, d4, d5, d6, fl, hfo, hfi, hbo]
   refine ⟨_, rfl, ?_⟩
   simp only [styleFacts, xfFacts, xfV, hx.aNumFmt, hx.aAlignment, hx.aProtection, ← hx.fontId, ← hx.fillId,
     ← hx.borderId, ← hx.numFmtId, hfov, hfiv, hbov]
